@@ -15,8 +15,13 @@ open Verif.Props.C04B
 #print axioms specificity_preserved
 #print axioms selector_equiv_html
 #print axioms selector_equiv_xml_counterexample
-#print axioms selector_equiv_counterexample
 #print axioms attr_ident_separated
 #print axioms attr_unquote_plain
 #print axioms important_preserved
 #print axioms font_pre_ok
+#print axioms import_target_ok
+#print axioms selector_sep_outside
+#print axioms selector_reparses
+#print axioms font_ok_partial
+#print axioms font_ok_counterexample
+#print axioms background_ok_partial
